@@ -1,6 +1,6 @@
 (* Extract/DrvC08.v — driver for C08: runs the very definitions the theorems of Props/C08.v are
    about (Model/C08Reloc.v, Spec/C08Spec.v).  Request: (op args...). *)
-From PV Require Import Base.Fmt Base.Outcome Spec.ElfGabi Spec.C08Spec Model.C08Reloc.
+From PV Require Import Base.Fmt Base.Outcome Spec.ElfGabi Spec.C08Spec Spec.C08Hist Model.C08Reloc Model.C08Hist.
 Open Scope string_scope.
 
 Definition g_rent (s : sx) : rent :=
@@ -31,6 +31,30 @@ Definition sx_dtable (t : dtable) : sx :=
 Definition g_pairs (s : sx) : list (Z * Z) := map (fun p => (gI (nthx 0 (gL p)), gI (nthx 1 (gL p)))) (gL s).
 Definition g_segs (s : sx) : list seg :=
   map (fun p => (gI (nthx 0 (gL p)), gI (nthx 1 (gL p)), gI (nthx 2 (gL p)))) (gL s).
+
+(* histories: (("start") ("next" g) ("close" g) ("num") ("get" n) ("iter")); extra elements are the
+   harness's own annotations (how a generator is resumed / dropped) *)
+Definition g_hop (s : sx) : hop :=
+  let l := gL s in
+  let t := gS (nthx 0 l) in
+  if t =? "start" then HStart
+  else if t =? "next" then HNext (gnat (nthx 1 l))
+  else if t =? "close" then HClose (gnat (nthx 1 l))
+  else if t =? "num" then HNum
+  else if t =? "get" then HGet (gI (nthx 1 l))
+  else HIter.
+Definition g_hist (s : sx) : list hop := map g_hop (gL s).
+Definition sx_ans {A} (f : A -> sx) (a : ans A) : sx :=
+  match a with
+  | AUnit => SS "unit"
+  | AItem x => SL [SS "item"; f x]
+  | AStop => SS "stop"
+  | AInt n => SL [SS "int"; SI n]
+  | AList l => SL [SS "list"; SL (map f l)]
+  | AErr e => sx_of_err e
+  | ANoGen => SS "nogen"
+  end.
+Definition sx_answers {A} (f : A -> sx) (l : list (ans A)) : sx := SL (map (sx_ans f) l).
 
 Definition dispatch (req : sx) : sx :=
   let l := gL req in
@@ -77,4 +101,16 @@ Definition dispatch (req : sx) : sx :=
   else if op =? "model_dyn" then        (* le is64 em tags segs *)
     sx_res (fun ts => SL (map sx_dtable ts))
            (get_relocation_tables (gbool a1) (gbool a2) (gI a3) (g_pairs a4) (g_segs a5))
+  (* ---- table objects under a history of calls *)
+  else if op =? "spec_hist_relr" then   (* is64 words hist *)
+    sx_answers SI (spec_hist (relr_spec (gbool a1) (gints a2)) (g_hist a3))
+  else if op =? "spec_hist_rel" then    (* is64 mips64 rela entries hist *)
+    sx_answers sx_entry (spec_hist (Ok (map (rent_view (gbool a1) (gbool a2) (gbool a3)) (g_rents a4))) (g_hist a5))
+  else if op =? "hist_ok" then          (* strict count hist *)
+    sx_bool (forallb (hop_ok (gbool a1) (gI a2)) (g_hist a3))
+  else if op =? "model_hist_relr" then  (* le is64 img off size entsize hist *)
+    sx_res (sx_answers SI) (relr_hist (gbool a1) (gbool a2) (gB a3) (gI a4) (gI a5) (gI a6) (g_hist a7))
+  else if op =? "model_hist_rel" then   (* le is64 em rela img off size hist *)
+    sx_answers sx_entry (rel_hist (rel_struct (gbool a1) (gbool a2) (is_mips (gI a3)) (gbool a4))
+                                  (gB a5) (gI a6) (gI a7) (g_hist (nthx 8 l)))
   else sx_err "unknown-op".
